@@ -31,9 +31,17 @@ func framerApply(op string, raw json.RawMessage) interface{} {
 	case "ops":
 		got := []string{}
 		notReady := 0
+		// like TCPSession.Recv, hand the framer slices of one read buffer that is reused (and so
+		// overwritten) by the next read: the framer must have copied what it was given
+		scratch := make([]byte, 1<<17)
 		for _, o := range a.Ops {
 			if o.Recv != nil {
-				f.RecvData(verifUnhex(*o.Recv))
+				c := verifUnhex(*o.Recv)
+				n := copy(scratch, c)
+				f.RecvData(scratch[:n])
+				for i := 0; i < n; i++ {
+					scratch[i] = 0xAA
+				}
 				continue
 			}
 			ready := f.MessageReady()
